@@ -397,3 +397,12 @@ def panic_sig(panic):
     m = re.sub(r"\d+", "N", msg)
     m = re.sub(r"`[^`]*`|\"[^\"]*\"|'[^']*'", "_", m)
     return "%s: %s" % (f, m[:70])
+
+
+def retry_alone(case, env=None, subcmd="run", tag="retry"):
+    """Re-run one case alone (nothing else running in this check) with a doubled deadline.  Used for
+    time-outs and process deaths seen in a loaded batch: only a reproduced one is judged."""
+    c = dict(case)
+    c["timeout_ms"] = 2 * int(c.get("timeout_ms", 30000))
+    res, _ = run_cases([c], env=env, subcmd=subcmd, shards=1, tag=tag)
+    return res.get(c["id"])
